@@ -27,6 +27,14 @@ CLAIMED = {
          "Lean 4 theorem (equivalence with a declarative grammar) + bounded-exhaustive correspondence", "9/C17"),
  "C19": ("txt_split_join (for every String), chunks_fit, attrs_roundtrip (keys without '=', entries within 255 bytes, absent vs empty preserved, via a proved UTF-8 lemma: byte 0x3D occurs in the encoding only as the character '='), first_occurrence_wins, long_attrs_split, overlong_refused proved on the model; correspondence sampled with boundary-directed generators.",
          "Lean 4 theorem (round trips over core's UTF-8 theory) + differential correspondence", "9/C19"),
+ "C02": ("build_parse: for every well-formed packet (explicit decidable WF = DNS field widths and size limits; a non-trivial sample packet is shown to satisfy it) Packet.parse (Packet.build p) = ok p, with name/question/record/RDATA round trips embedded in arbitrary context; unbounded in sizes. The excluded point TXT-without-strings is executed on every run and is the recorded known finding txt-no-strings.",
+         "Lean 4 theorem (round trip by induction over the schema table and sections) + differential correspondence", "9/C02"),
+ "C03": ("compressed_transparent and compressed_same_as_plain: for every well-formed packet of any size the compressed serialisation parses to the same packet and is never longer; proved by the table invariant 'every entry is a valid backward-pointer encoding at an offset <= 0x3FFF, or pending' (compress_append_spec).",
+         "Lean 4 theorem (invariant over the append-only compressing writer) + differential correspondence", "9/C03"),
+ "C13": ("reply_sound, reply_complete_exact, additional_sound, reply_header, no_empty_reply proved for every store satisfying the invariant maintained by all operation sequences (hence every reachable store), every query and every clock value; key_prefix_iff shows the store key is label-wise prefix-decodable.",
+         "Lean 4 theorem (invariant by induction over operations + refinement to an abstract map) + differential correspondence", "9/C13"),
+ "C20": ("cache_expiry, cached_lifetime_history, expired_never_returned, auth_never_expires, auth_not_in_cache_only, auth_until_removed proved over every operation history with the clock as a parameter (refinement abs_run to an abstract record -> kind map); partial in that the runtime clock is observed through real sleeps with measured intervals.",
+         "Lean 4 theorem (refinement over histories, explicit clock) + real-time differential correspondence", "9/C20"),
 }
 PENDING = {f"C{n:02d}": "check not built yet (implementation of DESIGN.md in progress); will be claimed at level proof" for n in range(1, 21)}
 try:
